@@ -147,4 +147,112 @@ theorem bisectRight_eq_length (xs : List Nat) (x : Nat) (h : ∀ a ∈ xs, a ≤
     simp only [List.takeWhile_cons, ha, decide_true, if_true, List.length_cons]
     rw [ih (fun b hb => h b (List.mem_cons_of_mem _ hb))]
 
+
+
+theorem digits_fromDigits (k : Nat) (hk : 0 < k) : ∀ (tup : List Nat), (∀ x ∈ tup, x < k) →
+    digits (fromDigits k tup) tup.length k = tup
+  | [], _ => by simp [digits]
+  | d :: ds, h => by
+    have hd : d < k := h d List.mem_cons_self
+    have ih := digits_fromDigits k hk ds (fun x hx => h x (List.mem_cons_of_mem _ hx))
+    rw [List.length_cons, digits_succ, fromDigits]
+    have h1 : (d + k * fromDigits k ds) % k = d := by
+      rw [Nat.add_mul_mod_self_left]; exact Nat.mod_eq_of_lt hd
+    have h2 : (d + k * fromDigits k ds) / k = fromDigits k ds := by
+      rw [Nat.add_mul_div_left _ _ hk, Nat.div_eq_of_lt hd, Nat.zero_add]
+    rw [h1, h2, ih]
+
+theorem digit_lt (n j k : Nat) (hk : 0 < k) : digit n j k < k := Nat.mod_lt _ hk
+
+theorem digits_lt (n S k : Nat) (hk : 0 < k) : ∀ x ∈ digits n S k, x < k := by
+  intro x hx
+  unfold digits at hx
+  obtain ⟨j, _, rfl⟩ := List.mem_map.mp hx
+  exact digit_lt n j k hk
+
+/-- the digit `j` of the position obtained by overwriting digit `s` of `part` with `i` -/
+theorem digit_insert (k S part s i j : Nat) (hk : 0 < k) (hs : s < S) (hi : i < k) (hj : j < S) :
+    digit (fromDigits k (insert (digits part S k) s i)) j k = if j = s then i else digit part j k := by
+  have hlen : (insert (digits part S k) s i).length = S := by simp [insert, digits_length]
+  have hall : ∀ x ∈ insert (digits part S k) s i, x < k := by
+    intro x hx
+    unfold insert at hx
+    rcases List.mem_or_eq_of_mem_set hx with h | h
+    · exact digits_lt part S k hk x h
+    · omega
+  have hd := digits_fromDigits k hk _ hall
+  rw [hlen] at hd
+  have : (digits (fromDigits k (insert (digits part S k) s i)) S k)[j]? = (insert (digits part S k) s i)[j]? := by rw [hd]
+  rw [digits_getElem?, if_pos hj] at this
+  unfold insert at this
+  by_cases hjs : j = s
+  · subst hjs
+    rw [List.getElem?_set_self (by rw [digits_length]; exact hj)] at this
+    simp only [if_true]
+    exact Option.some.inj this
+  · rw [List.getElem?_set_ne (by omega), digits_getElem?, if_pos hj] at this
+    simp only [hjs, if_false]
+    exact Option.some.inj this
+
+/-- rows of the staged shuffle after stages `< s`: every row sits at a position that agrees with its
+    reduced target on the digits `< s` -/
+def StageInv (P : Row → Prop) (k nIn s : Nat) (parts : List (List Row)) : Prop :=
+  ∀ (q : Nat) (rows : List Row), parts[q]? = some rows → ∀ r ∈ rows,
+    P r ∧ ∀ j, j < s → digit q j k = digit (r.1 % nIn) j k
+
+theorem stageStep_inv (P : Row → Prop) (k S s nIn : Nat) (hk : 0 < k) (hs : s < S) (parts : List (List Row))
+    (h : StageInv P k nIn s parts) : StageInv P k nIn (s + 1) (stageStep k S s nIn parts) := by
+  intro part rows hrows r hr
+  unfold stageStep at hrows
+  rw [List.getElem?_map] at hrows
+  have hpart : part < k ^ S := by
+    apply Nat.lt_of_not_le
+    intro hcon
+    rw [List.getElem?_eq_none (by simpa using hcon)] at hrows
+    cases hrows
+  rw [List.getElem?_range hpart] at hrows
+  simp only [Option.map_some, Option.some.injEq] at hrows
+  subst hrows
+  obtain ⟨i, hi, hri⟩ := List.mem_flatMap.mp hr
+  have hik : i < k := List.mem_range.mp hi
+  unfold shuffleGroup at hri
+  obtain ⟨hrq, hidx⟩ := List.mem_filter.mp hri
+  have hout : (digits part S k).getD s 0 = digit part s k := by
+    rw [List.getD_eq_getElem?_getD, digits_getElem?, if_pos hs]; rfl
+  rw [hout] at hidx
+  simp only [stageIndex, Bool.false_and, Bool.false_eq_true, if_false, beq_iff_eq] at hidx
+  -- the source position
+  have hsrc : ∃ rows', parts[fromDigits k (insert (digits part S k) s i)]? = some rows' ∧ r ∈ rows' := by
+    rw [List.getD_eq_getElem?_getD] at hrq
+    cases hq : parts[fromDigits k (insert (digits part S k) s i)]? with
+    | none => rw [hq] at hrq; simp at hrq
+    | some rows' => rw [hq] at hrq; exact ⟨rows', rfl, by simpa using hrq⟩
+  obtain ⟨rows', hq, hr'⟩ := hsrc
+  refine ⟨(h _ rows' hq r hr').1, ?_⟩
+  intro j hj
+  by_cases hjs : j = s
+  · subst hjs; exact hidx.symm
+  · have hjlt : j < s := by omega
+    have := (h _ rows' hq r hr').2 j hjlt
+    rw [digit_insert k S part s i j hk hs hik (by omega), if_neg hjs] at this
+    exact this
+
+theorem staged_inv_all (P : Row → Prop) (k S nIn : Nat) (hk : 0 < k) (parts : List (List Row))
+    (hP : ∀ rows ∈ parts, ∀ r ∈ rows, P r) :
+    ∀ s, s ≤ S → StageInv P k nIn s ((List.range s).foldl (fun ps s => stageStep k S s nIn ps) parts)
+  | 0, _ => by
+    intro q rows hq r hr
+    exact ⟨hP rows (List.mem_of_getElem? hq) r hr, fun j hj => by omega⟩
+  | s + 1, hs => by
+    rw [List.range_succ, List.foldl_append]
+    exact stageStep_inv P k S s nIn hk (by omega) _ (staged_inv_all P k S nIn hk parts hP s (by omega))
+
+theorem digits_ext (k S a b : Nat) (h : ∀ j, j < S → digit a j k = digit b j k) : digits a S k = digits b S k := by
+  apply List.ext_getElem?
+  intro j
+  rw [digits_getElem?, digits_getElem?]
+  by_cases hj : j < S
+  · simp [hj, h j hj]
+  · simp [hj]
+
 end Dask.Shuffle
